@@ -17,7 +17,7 @@ from sim.trace import EventLog, canon
 CASE_TIMEOUT = 180
 LEVEL = {"C08": "exploration"}
 PLAN = {"C08": {
-    "quick": {"runs": 14000, "wall_cap": 110, "chunk": 50, "selftest": 8},
+    "quick": {"runs": 20000, "wall_cap": 110, "chunk": 50, "selftest": 8},
     "thorough": {"runs": 900000, "wall_cap": 1700, "chunk": 200, "selftest": 40},
 }}
 RULE = {"C08": (
